@@ -12092,3 +12092,107 @@ func ruleOriginalTxThroughResponse(c *Ctx) {
 		c.Lost("original-tx-through-response.shape", "RequestInternal no longer builds a request with an OriginalTxID")
 	}
 }
+
+// ruleEpochBoundaryAgrees (C19, C01): the values of the next epoch (committee, next validators) are computed when the
+// block being processed is the last of an epoch: NEO.PostPersist asks ShouldUpdateCommitteeAt(ic.Block.Index + 1). A
+// node that starts with that block as its tip has to make the same computation, or it proposes and signs the next
+// block with the validators of the epoch that has just ended (another NextConsensus, another header hash than its
+// peers - commits that match nobody's). NEO.InitializeCache asks the same question for the same height: the height
+// it was given plus the offset PostPersist adds to the index of the block it has just processed.
+func ruleEpochBoundaryAgrees(c *Ctx) {
+	pp := c.P.Func("pkg/core/native", "NEO", "PostPersist")
+	ic := c.P.Func("pkg/core/native", "NEO", "InitializeCache")
+	if pp == nil || ic == nil {
+		c.Lost("epoch-boundary-agrees.anchor", "NEO.PostPersist / NEO.InitializeCache not found")
+		return
+	}
+	// the ShouldUpdateCommitteeAt call whose if-body reaches updateCachedNewEpochValues
+	offsetOf := func(fd *FuncDecl) (int64, bool, token.Pos) {
+		f := c.P.NewFuncCFG(fd)
+		var off int64
+		found := false
+		var at token.Pos
+		ast.Inspect(fd.Decl.Body, func(x ast.Node) bool {
+			is, ok := x.(*ast.IfStmt)
+			if !ok || found {
+				return true
+			}
+			reaches := false
+			ast.Inspect(is.Body, func(y ast.Node) bool {
+				if ce, ok := y.(*ast.CallExpr); ok && strings.HasSuffix(f.calleeSym(ce), ".updateCachedNewEpochValues") {
+					reaches = true
+				}
+				return true
+			})
+			if !reaches {
+				return true
+			}
+			ast.Inspect(is.Cond, func(y ast.Node) bool {
+				ce, ok := y.(*ast.CallExpr)
+				if !ok || !strings.HasSuffix(f.calleeSym(ce), ".ShouldUpdateCommitteeAt") || len(ce.Args) != 1 {
+					return true
+				}
+				_, o, ok := linearForm(f, ce.Args[0], 0)
+				if id, isId := ast.Unparen(ce.Args[0]).(*ast.Ident); isId && f.params[f.Info.ObjectOf(id)] {
+					o, ok = 0, true
+				}
+				if ok {
+					off, found, at = o, true, ce.Pos()
+				}
+				return true
+			})
+			return true
+		})
+		return off, found, at
+	}
+	po, ok1, _ := offsetOf(pp)
+	io, ok2, at := offsetOf(ic)
+	switch {
+	case !ok1 || !ok2:
+		c.Lost("epoch-boundary-agrees.shape", "the ShouldUpdateCommitteeAt test that guards updateCachedNewEpochValues was not found in PostPersist or InitializeCache")
+	case po == io:
+		c.OK("epoch-boundary-agrees", c.P.Pos(at), fmt.Sprintf("start-up and block processing compute the next epoch's values for the same height (tip%+d)", io))
+	default:
+		c.Fail("epoch-boundary-agrees", c.P.Pos(at), fmt.Sprintf("NEO.PostPersist computes the next epoch's committee and validators when ShouldUpdateCommitteeAt(index%+d) holds for the block it has processed, NEO.InitializeCache when ShouldUpdateCommitteeAt(height%+d) holds for the tip it starts from: a node restarted while its tip is the last block of an epoch keeps the ending epoch's validators for the next block, builds a header with another NextConsensus than its peers, and its commits match nobody's - with one more validator silent the height never completes", po, io))
+	}
+}
+
+// ruleVerifyBudgetCoversSignature (C19): consensus payloads travel as extensible payloads; the pool verifies the
+// witness of every one - the node's own included - with a fixed GAS allowance. A signature check costs
+// ECDSAVerifyPrice x ExecFeeFactor, and the committee may raise the factor up to maxExecFeeFactor: an allowance below
+// the product makes every honestly signed payload fail verification once the factor is raised, on every node, and no
+// block can be produced to lower it again. extpool.extensibleVerifyMaxGAS >= native.maxExecFeeFactor x
+// fee.ECDSAVerifyPrice - a relation between three constants of the code, folded on every run.
+func ruleVerifyBudgetCoversSignature(c *Ctx) {
+	get := func(pkg, name string) (int64, bool) {
+		pk := c.P.Pkg(pkg)
+		if pk == nil {
+			return 0, false
+		}
+		o := pk.Types.Scope().Lookup(name)
+		if o == nil {
+			return 0, false
+		}
+		var val constant.Value
+		switch k := o.(type) {
+		case *types.Const:
+			val = k.Val()
+		default:
+			return 0, false
+		}
+		v, ok := constant.Int64Val(constant.ToInt(val))
+		return v, ok
+	}
+	budget, ok1 := get("pkg/network/extpool", "extensibleVerifyMaxGAS")
+	price, ok2 := get("pkg/core/fee", "ECDSAVerifyPrice")
+	factor, ok3 := get("pkg/core/native", "maxExecFeeFactor")
+	if !ok1 || !ok2 || !ok3 {
+		c.Lost("verify-budget-covers-signature.consts", "extpool.extensibleVerifyMaxGAS, fee.ECDSAVerifyPrice or native.maxExecFeeFactor is no longer a constant the rule can fold")
+		return
+	}
+	if budget >= price*factor {
+		c.OK("verify-budget-covers-signature", "pkg/network/extpool", fmt.Sprintf("the allowance for the witness of an extensible payload (%d) covers a signature check at the highest execution fee factor (%d x %d)", budget, price, factor))
+	} else {
+		c.Fail("verify-budget-covers-signature", "pkg/network/extpool", fmt.Sprintf("extpool verifies the witness of every extensible payload with %d GAS units, a signature check costs ECDSAVerifyPrice (%d) times the execution fee factor, and the committee may raise the factor to %d: %d does not fit. Once the factor is raised past %d every honestly signed consensus payload - a node's own too - is refused by the pools of all nodes, no block is produced any more, and without a block the factor cannot be lowered", budget, price, factor, price*factor, budget/price))
+	}
+}
